@@ -240,10 +240,11 @@ std::vector<EFn> build_efns() {
        [](cld z) { return z.real() * z.real() + z.imag() * z.imag(); }, tol_rel8);
     CR("angle", anycx, [](const arr_cmplx& x) { return dsplib::angle(x); }, [](cmplx_t v) { return dsplib::angle(v); }, [](cld z) { return atan2l(z.imag(), z.real()); }, tol_rel8);
     // conventions on the cut: (-pi, pi] says +pi, IEEE atan2 says -pi for im = -0; both accepted exactly on the negative real
-    // axis (including re = -0, where 0 is accepted as well: angle(0) = 0)
+    // axis when im = -0 (im = +0 must give +pi); for re = -0 the value 0 is accepted as well: angle(0) = 0
     t.back().alt = [](Val x, Val got) {
         if (!neg_axis(x)) return false;
-        if (x.re == 0 && got.re == 0) return true;
+        if (x.re == 0 && got.re == 0) return true;                   // angle(0) = 0 also for re = -0
+        if (!std::signbit(x.im) && got.re < 0) return false;         // im = +0: +pi in both conventions
         return std::fabs(ld(std::fabs(got.re)) - PI_L) <= 8 * ld(EPS) * PI_L;
     };
     CR("real", anycx, [](const arr_cmplx& x) { return dsplib::real(x); }, [](cmplx_t v) { return dsplib::real(v); }, [](cld z) { return z.real(); }, tol_exact);
@@ -283,6 +284,7 @@ static void ew_check(const Json& c, Out& o) {
     std::vector<Val> ya = f->arr(x);
     if (int(ya.size()) != n) { o.fail(f->name + ":size", fmt("%s of %d elements returned %zu", f->name.c_str(), n, ya.size())); return; }
     double worst = 0;
+    bool conv = false;
     for (int form = 0; form < (f->sc ? 2 : 1); ++form) {
         for (int i = 0; i < n; ++i) {
             const Val xi = x[size_t(i)];
@@ -292,7 +294,7 @@ static void ew_check(const Json& c, Out& o) {
             const ld e = std::abs(cld(g.re, g.im) - ref);
             const bool fin = std::isfinite(g.re) && std::isfinite(g.im);
             bool ok = fin && e <= tol;
-            if (!ok && fin && f->alt && f->alt(xi, g)) { ok = true; o.label("accepted-convention:" + f->name); }
+            if (!ok && fin && f->alt && f->alt(xi, g)) { ok = true; conv = true; }
             if (ok && tol > 0 && e <= tol) worst = std::max(worst, double(e / tol));
             if (!ok) {
                 o.fail(f->name + ":" + cname, fmt("%s %s(%.17g%+.17gi) = %.17g%+.17gi, reference %.20Lg%+.20Lgi, |err| %.3Lg > tol %.3Lg", form ? "scalar" : "array", f->name.c_str(),
@@ -302,6 +304,7 @@ static void ew_check(const Json& c, Out& o) {
         }
     }
     o.metric("err/tol " + f->name, worst);
+    if (conv) o.label("accepted-convention:" + f->name + " on the cut with im=-0 / re=-0");
     o.evals = f->sc ? 2L * n : n;
     if (!(f->cin ? benign_c(cls) : benign_r(cls))) o.nontrivial(key_of(hash_str(f->name), cls, n));
     o.label("fn:" + f->name);
@@ -387,7 +390,8 @@ std::pair<cld, cld> ref_power(bool cx, Val x, double p) {
     const ld mp = powl(m, ld(p));
     if (x.im == 0 && x.re < 0) {
         const ld a = ld(p) * PI_L;
-        return {mp * cld(cosl(a), sinl(a)), mp * cld(cosl(a), -sinl(a))};
+        const cld pv = mp * cld(cosl(a), sinl(a));
+        return {pv, std::signbit(x.im) ? mp * cld(cosl(a), -sinl(a)) : pv};
     }
     const ld a = ld(p) * atan2l(x.im, x.re);
     cld v = mp * cld(cosl(a), sinl(a));
@@ -444,7 +448,7 @@ static void pw_check(const Json& c, Out& o) {
     const char* bname = cx ? CNAME[bcls] : PBNAME[bcls];
     if (int(got.size()) != n) { o.fail(std::string(OVNAME[ov]) + ":size", fmt("%s with %d elements returned %zu", OVNAME[ov], n, got.size())); return; }
     double worst = 0;
-    bool all_two = true;
+    bool all_two = true, conv = false;
     for (int i = 0; i < n; ++i) {
         const Val x = xs[size_t(i)], g = got[size_t(i)];
         const double p = ps[size_t(i)];
@@ -454,7 +458,7 @@ static void pw_check(const Json& c, Out& o) {
         const cld gc(g.re, g.im);
         const bool fin = std::isfinite(g.re) && std::isfinite(g.im);
         ld e = std::abs(gc - ref.first);
-        if (fin && e > tol && std::abs(gc - ref.second) <= tol) { e = std::abs(gc - ref.second); o.label("accepted-convention:power on the cut with im=-0"); }
+        if (fin && e > tol && std::abs(gc - ref.second) <= tol) { e = std::abs(gc - ref.second); conv = true; }
         if (!fin || !(e <= tol)) {
             o.fail(std::string(OVNAME[ov]) + ":" + bname, fmt("%s: (%.17g%+.17gi)^%.17g = %.17g%+.17gi, reference %.20Lg%+.20Lgi, |err| %.3Lg > tol %.3Lg", OVNAME[ov], x.re, x.im, p, g.re,
                                                              g.im, ref.first.real(), ref.first.imag(), e, tol));
@@ -463,6 +467,7 @@ static void pw_check(const Json& c, Out& o) {
         worst = std::max(worst, double(e / tol));
     }
     o.metric(std::string("err/tol ") + (cx ? "power(cmplx base)" : "power(real base)"), worst);
+    if (conv) o.label("accepted-convention:power on the cut with im=-0");
     o.evals = n;
     const bool benign_base = cx ? (bcls == C_GAUSS || bcls == C_UNITS) : (bcls == PB_ABSGAUSS || bcls == PB_ONE);
     if (!(benign_base && all_two)) o.nontrivial(key_of(ov, bcls, ecls, n));
@@ -531,10 +536,12 @@ struct Red
     const char* kind;   // "real" / "cmplx"
     int n;
     const char* cname;
+    std::map<std::string, double> mx;
+    void flush() { for (auto& kv : mx) o.metric(kv.first, kv.second); }
     void cmp(const std::string& fn, cld got, cld ref, ld tol, const std::string& extra = "") {
         const ld e = std::abs(got - ref);
         const bool fin = std::isfinite(double(got.real())) && std::isfinite(double(got.imag()));
-        if (fin && e <= tol) { o.metric("err/tol " + fn, tol > 0 ? double(e / tol) : 0.0); return; }
+        if (fin && e <= tol) { double& m = mx["err/tol " + fn]; m = std::max(m, tol > 0 ? double(e / tol) : 0.0); return; }
         o.fail(fn + ":" + kind, fmt("%s(%s, n=%d, class %s)%s = %.17Lg%+.17Lgi, reference %.20Lg%+.20Lgi, |err| %.3Lg > tol %.3Lg", fn.c_str(), kind, n, cname, extra.c_str(), got.real(),
                                     got.imag(), ref.real(), ref.imag(), e, tol));
     }
@@ -620,6 +627,7 @@ static void red_check(const Json& c, Out& o) {
         ++ev;
         o.label(fmt("norm-p:%d", p));
     }
+    R.flush();
     o.evals = ev;
     if (n <= 3 || (cls != A_GAUSS && cls != A_INTS)) o.nontrivial(key_of(int(cx), cls, n, c.geti("cls2"), p));
     o.label(std::string("input:") + R.kind + " " + ANAME[cls]);
@@ -633,7 +641,7 @@ static void red_gen(Ctx& ctx) {
                     if (!ctx.mine()) continue;
                     ctx.eval(Json::object().set("cx", cx).set("cls", cls).set("cls2", (cls + n) % A_N).set("n", n).set("p", p).set("seed", (long long)(mix(ctx.seed, key_of(cx, cls, n, p)) >> 16)));
                 }
-    ctx.rc("random", ctx.by_tier(400000, 4000000), [&]() {
+    ctx.rc("random", ctx.by_tier(800000, 8000000), [&]() {
         int p = pick(0, 6);
         p = p == 0 ? 0 : p + 2;
         return Json::object().set("cx", pick(0, 1)).set("cls", pick(0, A_N - 1)).set("cls2", pick(0, A_N - 1)).set("n", pick_log(1, 1000)).set("p", p).set("seed", (long long)seed64());
